@@ -61,6 +61,9 @@ def run(ctx):
         rawpats += ['\\400', '\\777', 'a\\477b', '[\\500]', '\\377', '\\x80', '@(\\600)']
         # regression (fixed f1e8f80): internal marker text written by the user
         rawpats += ['[(?#)]', '[a(?#)]', '[!(?#)]', '(?#)', '@([(?#)])', '!([(?#)])', '[(?#)', '[[:alpha:](?#)]', '[#-(?#)]', '\\(?#)', '[(?\\#)]']
+        # emptied / all-accepting classes (every range reversed), each as str and as bytes (index parity below)
+        for bp in ['[!b-a]', '[^z-a]x', '[!9-0z-a]', 'a[!c-b]c', '@([!b-a]|x)', '[b-a]', '[!b-ac]', '[z-a9-0]', '!([^b-a])', '[!b-a]/[^z-a]']:
+            rawpats += [bp, bp]
         for _ in range(60 if ctx.quick else 600):
             rawpats.append(''.join(rng.choice(['\\', 'U', 'u', 'x', 'N', '{', '}', 'f', '8', '0', '1', 'a', '/', '*']) for _ in range(rng.randint(2, 14))))
         pats = rawpats + pats
